@@ -78,6 +78,15 @@ func (r *Run) addExec(x *Exec, prop string) {
 		Text:  "requires are satisfiable and a normal return is reachable under all assumptions",
 		Parts: []OblPart{{NegGoal: x.coverReach, NAssume: len(x.c.Assumes)}}}
 	r.Covers = append(r.Covers, cover)
+	for _, n := range x.ensCoverOrder {
+		ec := x.ensCover[n]
+		if !hasProp(ec.props, prop) {
+			continue
+		}
+		r.Covers = append(r.Covers, &Oblig{Name: n + ".cover", Kind: "cover", Ctx: x.c, Func: x.top.String(),
+			Text:  "the antecedent of this postcondition is reachable at some return: " + ec.text,
+			Parts: []OblPart{{NegGoal: Or(ec.terms...), NAssume: len(x.c.Assumes)}}})
+	}
 	r.SiteCovers = append(r.SiteCovers, x.siteCovers...)
 }
 
